@@ -86,7 +86,8 @@ static void gen(uint64_t seed, const std::string &prop, Plan &plan) {
             else if (c < 68) plan.ops.push_back(Op{task, "bad_size", {(int64_t)(r.chance(0.5) ? r.below(200) : r.range(30000, 40000))}, "", {}});
             else if (c < 74) plan.ops.push_back(Op{task, "bad_type", {(int64_t)r.range(5, 1000000)}, "", {}});
             else if (c < 80) plan.ops.push_back(Op{task, "noterm", {(int64_t)(r.next() >> 8)}, "", {}});
-            else if (c < 86) plan.ops.push_back(Op{task, "noread", {(int64_t)r.range(1, 12), (int64_t)r.below(2)}, "", {}});
+            else if (c < 83) plan.ops.push_back(Op{task, "noread", {(int64_t)r.range(1, 12), (int64_t)r.below(2)}, "", {}});
+            else if (c < 86) { Op o{task, "pipeline", {}, "", {}}; int n = (int)r.range(2, 12); for (int i = 0; i < n; i++) o.n.push_back((int64_t)r.below(C_NNAMES)); plan.ops.push_back(o); }
             else if (c < 92) plan.ops.push_back(Op{task, "reconnect", {(int64_t)r.below(3)}, "", {}});
             else if (c < 96) plan.ops.push_back(Op{task, "disconnect_mid", {(int64_t)r.below(C_NNAMES)}, "", {}});
             else plan.ops.push_back(Op{task, "sleep", {(int64_t)r.below(3000)}, "", {}});
@@ -223,6 +224,39 @@ static void raw_client_task(const Plan *pl, int idx) {
             if (fd >= 0) k::close(fd);
             fd = raw_connect(CX2->paths[(size_t)slot]);
             first = true;
+        } else if (op.kind == "pipeline") {
+            // several requests back to back, the replies read afterwards: each must answer its own request, in order
+            if (fd < 0) continue;
+            std::vector<std::string> names;
+            bool ok = true;
+            for (auto v : op.n) {
+                std::string rq(MSG_SZ, '\0');
+                int32_t t = T_GET_REQ;
+                memcpy(&rq[0], &t, 4);
+                std::string name = C_NAMES[v % (int64_t)C_NNAMES];
+                memcpy(&rq[8], name.c_str(), name.size() + 1);
+                if (k::send(fd, rq.data(), rq.size(), 0) < 0) { ok = false; break; }
+                names.push_back(name);
+            }
+            task_sleep(3 * MS);
+            for (size_t i = 0; i < names.size() && ok; i++) {
+                std::string buf(MSG_SZ + 64, '\0');
+                ssize_t n = k::recv(fd, &buf[0], buf.size(), 0);
+                if (n <= 0) {
+                    if (i > 0 && !G->stopping && !CX2->socks[(size_t)slot]->closed)
+                        G->violation("C14.reply_missing", "%s: %zu requests were sent back to back, only %zu replies arrived", who.c_str(), names.size(), i);
+                    ok = false;
+                    break;
+                }
+                buf.resize((size_t)n);
+                scan_for_key(buf, who.c_str());
+                Reply rp; rp.slot = slot; rp.kind = 0; rp.name = names[i]; rp.first_on_session = first && i == 0;
+                parse_reply(buf, rp);
+                CX2->replies.push_back(rp);
+                G->count("probe.ctl_pipelined_reply");
+            }
+            first = false;
+            if (!ok) { k::close(fd); fd = raw_connect(CX2->paths[(size_t)slot]); first = true; }
         } else if (op.kind == "reconnect") {
             if (fd >= 0) k::close(fd);
             slot = (int)op.arg(0) % (int)CX2->paths.size();
